@@ -85,6 +85,29 @@ func (e *evo) blockTxs() []*wire.MsgTx {
 	return txs
 }
 
+// judgeMid is the part of the oracle that holds at ANY quiescent moment, also
+// half-way through a reorg (after the disconnects, before or between the
+// connects): the wallet's synced-to block is a block of the backend's best
+// chain, not above its tip.
+func (e *evo) judgeMid(after string) bool {
+	w := e.h.W
+	if w == nil || !w.ChainSynced() {
+		return false
+	}
+	e.ch.Barrier()
+	e.stats["mid-reorg-judgements"]++
+	_, tip, _ := e.ch.GetBestBlock()
+	st := w.Manager.SyncedTo()
+	if st.Height > tip {
+		return e.fail("c15:synced-above-backend-tip", fmt.Sprintf("%s: wallet synced-to height %d is above the backend tip %d", after, st.Height, tip))
+	}
+	want, _ := e.ch.GetBlockHash(int64(st.Height))
+	if want == nil || st.Hash != *want {
+		return e.fail("c15:synced-to-block-off-best-chain", fmt.Sprintf("%s: wallet synced-to block %v at height %d is not on the backend's best chain (which has %v there, tip %d)", after, st.Hash, st.Height, want, tip))
+	}
+	return false
+}
+
 // judge compares the wallet with the backend's best chain.
 func (e *evo) judge(after string) bool {
 	w := e.h.W
@@ -334,6 +357,9 @@ func runEvolution(r *evid.Run, dir string, cs int64) {
 			if rg.Intn(3) == 0 {
 				ch.Send(discs[rg.Intn(len(discs))])
 				e.stats["disconnects-repeated-mid-reorg"]++
+				if e.judgeMid(fmt.Sprintf("reorg depth %d: all disconnects delivered, one of them repeated, new branch not yet connected", d)) {
+					return
+				}
 			}
 			// the new branch may arrive in two instalments with a repeated old
 			// disconnect in between (the wallet's chain is then shorter than the
@@ -346,6 +372,9 @@ func runEvolution(r *evid.Run, dir string, cs int64) {
 				if hh == split {
 					ch.Send(discs[rg.Intn(len(discs))])
 					e.stats["disconnects-repeated-mid-reorg"]++
+					if e.judgeMid(fmt.Sprintf("reorg depth %d: new branch connected up to %d, then an old-branch disconnect repeated", d, hh-1)) {
+						return
+					}
 				}
 				ch.NotifyConnect(hh)
 			}
